@@ -1202,12 +1202,7 @@ instance (c : Cl) : Decidable (IInv c) := by unfold IInv MdkVerif.Props.C08.Inv;
 
 /-! ## one-sided steps: a delivery without effect, in one run only -/
 
-/-- the event has a dedup record here that carries an epoch (it took effect: Processed, ProcessedCommit, Created) or that
-    blocks it already (Failed, EpochInvalidated) -/
-def known (c : Cl) (e : Ev) : Bool :=
-  match getRec c e.n with
-  | some r => r.epoch.isSome || r.state == 3 || r.state == 4
-  | none => false
+-- `known` (the event has a dedup record that carries an epoch, or a blocking one) is defined next to `handled` in Model/Handled.lean
 
 /-- `c1` is `c` after a delivery of event number `n` that had no effect: inside the relation with the record of `n`
     free — and, if `c` held a record of `n` with an epoch, that record is unchanged or stuck now -/
@@ -1307,15 +1302,27 @@ theorem touch_step1_handled (retry : Cl → Option (Cl × Res)) (nx : Nat) (c : 
       simp only [withSecret_isBetter, hnb, Bool.false_eq_true, if_false]
       exact touch_notBetterResult hw e rfl hnw hs'
     | leave =>
-      simp only [hk, Bool.and_eq_true, bne_iff_ne, ne_eq] at hh
-      obtain ⟨hne, hc⟩ := hh
-      have h2 : (e.sender == c.id) = false := by simpa using hne
-      have hc' : (withSecret c).g.consumed.contains e.cipher = true := by rw [withSecret_consumed]; exact hc
+      simp only [hk] at hh
       simp only
       split
       · exact touch_failUnprocessable hw e rfl hnw
-      · simp only [withSecret_id, h2, Bool.false_eq_true, if_false, hc', if_true]
-        exact touch_failUnprocessable hw e rfl hnw
+      · rcases (Bool.or_eq_true _ _).mp hh with h1 | h1
+        · simp only [Bool.and_eq_true, bne_iff_ne, ne_eq] at h1
+          have h2 : (e.sender == c.id) = false := by simpa using h1.1
+          have hc' : (withSecret c).g.consumed.contains e.cipher = true := by rw [withSecret_consumed]; exact h1.2
+          simp only [withSecret_id, h2, Bool.false_eq_true, if_false, hc', if_true]
+          exact touch_failUnprocessable hw e rfl hnw
+        · simp only [Bool.and_eq_true, beq_iff_eq] at h1
+          have he : (e.sender == c.id) = true := by simpa using h1.1
+          simp only [withSecret_id, he, if_true]
+          unfold ownMessage
+          simp only [withSecret_getRec]
+          cases hr : getRec c e.n with
+          | none => simp [hr] at h1
+          | some r =>
+            have h1s : r.state = 2 := by simpa [hr] using h1.2
+            simp only [h1s]
+            exact touch_returnOwnCommit hw hs'
     | app mid mts tok =>
       simp only [hk] at hh
       simp only
@@ -1345,20 +1352,30 @@ theorem touch_step1_handled (retry : Cl → Option (Cl × Res)) (nx : Nat) (c : 
 theorem touch_deliverN_handled (fuel nx : Nat) (c : Cl) (e : Ev) (hi : IInv c) (hh : handled c e = true) :
     Touch e.n c (deliverN fuel nx c e).1 := by
   unfold handled at hh
+  have key : ∀ retry, (routes c e = false ∨ handledInner c e = true) → Touch e.n c (step1 retry nx c e).1 := by
+    intro retry h
+    by_cases hg : routes c e = true
+    · rcases h with h | h
+      · rw [hg] at h; cases h
+      · exact touch_step1_handled retry nx c e hi hg h
+    · have hg' : routes c e = false := by simpa using hg
+      unfold step1
+      simp only [hg', Bool.not_false, if_true]
+      exact touch_recordFailure (touch_refl _ _) rfl _ _
   cases hr : getRec c e.n with
   | some r =>
     by_cases hb : (r.state == 3 || r.state == 4) = true
     · cases fuel <;> simp only [deliverN, deliverOnce, hr, hb, if_true] <;> exact touch_refl _ _
     · have hb' : (r.state == 3 || r.state == 4) = false := by simpa using hb
-      simp only [hr, hb', Bool.false_or, Bool.and_eq_true] at hh
+      simp only [hr, hb', Bool.false_or, Bool.or_eq_true, Bool.not_eq_true'] at hh
       cases fuel <;> simp only [deliverN, deliverOnce, hr, hb', Bool.false_eq_true, if_false]
-      · exact touch_step1_handled _ nx c e hi hh.1 hh.2
-      · exact touch_step1_handled _ nx c e hi hh.1 hh.2
+      · exact key _ hh
+      · exact key _ hh
   | none =>
-    simp only [hr, Bool.false_or, Bool.and_eq_true] at hh
+    simp only [hr, Bool.false_or, Bool.or_eq_true, Bool.not_eq_true'] at hh
     cases fuel <;> simp only [deliverN, deliverOnce, hr]
-    · exact touch_step1_handled _ nx c e hi hh.1 hh.2
-    · exact touch_step1_handled _ nx c e hi hh.1 hh.2
+    · exact key _ hh
+    · exact key _ hh
 
 /-- a record that blocks: the delivery returns at the dedup check, the client is untouched -/
 theorem blocked_deliverN' (fuel nx : Nat) (c : Cl) (e : Ev) (r : Rec) (hr : getRec c e.n = some r) (hs : r.state = 3 ∨ r.state = 4) :
